@@ -419,39 +419,72 @@ def check_ctor_copy(ctx, R):
                      % (fn.qual, target.name, ', '.join('self.' + m for m in missing)), ctx.where(fn, n.lineno))
 
 
+def acc_paths(model, cls):
+    """symbolic facts of every normal path of accumulate.update (core or dask), in let-normal form:
+    dict(first, ws, state (stored value text or None), state_pos, emit_pos, data (expr), fcall (index of the call that applies
+    the user function or None), r (the Rec))"""
+    from ..symexpr import SymEval, nf, norm_cond
+    fn = cls.find('update')
+    out = []
+    for r in SymEval(model, cls, name_calls=True).run(fn):
+        if r.raised:
+            continue
+        first = ws = None
+        for c, o in r.conds:
+            t, o2 = norm_cond(c, o)
+            t = t.replace(' ', '').replace('core.', '')
+            if t == 'self.stateisno_default':
+                first = o2
+            if t == 'self.with_state':
+                ws = o2
+        fcall = None
+        for k, (c, s_, l) in enumerate(r.calls):
+            if not isinstance(c, ast.Call):
+                continue
+            f = nf(c.func)
+            if f == 'self.func' or (f.endswith('.submit') and c.args and nf(c.args[0]) == 'self.func'):
+                fcall = k
+        sts = [(i, v) for i, (f, v, s_, l) in enumerate(r.stores) if f == 'state']
+        spos = max([j for j, (kind, i) in enumerate(r.order) if kind == 'store' and r.stores[i][0] == 'state'] or [-1])
+        epos = [j for j, (kind, i) in enumerate(r.order) if kind == 'emit']
+        out.append(dict(first=first, ws=ws, state=nf(sts[-1][1]) if sts else None, state_pos=spos, emit_pos=epos,
+                        data=r.emits[0][0] if len(r.emits) == 1 else None, n_emits=len(r.emits), fcall=fcall, r=r,
+                        n_state_stores=len(sts)))
+    return out
+
+
 def check_acc_contract(ctx, R):
+    """accumulate.update on symbolic normal forms: every normal path stores the state exactly once, before its single
+    emission; with with_state the emitted value is (the state just stored, result), without it the state is not exposed"""
+    from ..symexpr import nf
     M = ctx.model
     for mod in ('streamz.core', 'streamz.dask'):
         cls = M.cls(mod, 'accumulate')
-        fn = cls.methods['update']
+        fn = cls.find('update')
         con = ctx.construct(fn)
         bad, n = None, 0
-        detail = ''
-        for st, status in ctx.paths(fn, cls):
-            evs = st.events
-            if is_failure(evs, status):
-                continue
-            ems = [i for i, e in enumerate(evs) if e.kind == 'EM']
-            if len(ems) != 1:
+        for p in acc_paths(M, cls):
+            if p['n_emits'] != 1:
+                bad = bad or 'a normal path emits %d times' % p['n_emits']
                 continue
             n += 1
-            e = evs[ems[0]]
-            ws = next((c.b for c in evs if c.kind == 'COND' and c.a == 'self.with_state'), None)
-            d = e.x.get('data')
-            sts = [i for i, x in enumerate(evs) if x.kind == 'ST' and x.a == 'state']
-            if ws is True:
-                if not (isinstance(d, ast.Tuple) and len(d.elts) == 2 and src(d.elts[0]) == 'self.state'):
-                    bad, detail = evs, 'with with_state the emitted value is %s, not (self.state, result)' % src(d)
-                elif sts and sts[-1] > ems[0]:
-                    bad, detail = evs, 'the state is stored after the emission: the emitted state is the previous one'
-                elif not sts:
-                    bad, detail = evs, 'a path emits state without having stored it'
-            elif ws is False and isinstance(d, ast.Tuple) and d.elts and src(d.elts[0]) == 'self.state':
-                bad, detail = evs, 'state is exposed although with_state is false'
-            if not sts:
-                bad, detail = evs, 'a path does not update self.state'
-        R.ob('ACC-CONTRACT', con, 'with_state', bad is None and n >= 4, detail, ctx.where(fn, fn.node.lineno),
-             fmt_path(bad) if bad else None, n)
+            d = p['data']
+            if p['state'] is None:
+                bad = bad or 'a path does not update self.state'
+                continue
+            if p['state_pos'] > p['emit_pos'][0]:
+                bad = bad or 'the state is stored after the emission: the emitted state is the previous one'
+                continue
+            if p['ws'] is True:
+                if not (isinstance(d, ast.Tuple) and len(d.elts) == 2 and nf(d.elts[0]) == p['state']):
+                    bad = bad or 'with with_state the emitted value is %s, not (self.state, result)' % src(d)[:80]
+            elif p['ws'] is False:
+                if isinstance(d, ast.Tuple) and d.elts and nf(d.elts[0]) == p['state'] and not p['first']:
+                    bad = bad or 'state is exposed although with_state is false'
+            else:
+                bad = bad or 'a path emits without testing self.with_state'
+        R.ob('ACC-CONTRACT', con, 'with_state', bad is None and n >= 4, bad or 'fewer than 4 emitting paths (unrecognised spelling)',
+             ctx.where(fn, fn.node.lineno), None, n)
 
 
 # ----------------------------------------------------------------------------- FOLD-DERIVE
